@@ -33,6 +33,20 @@ func runC02(c *Ctx) {
 			t := c.termOf(ic, s.Common().Args[2])
 			ok := mustRe(`^new\(Int\)\.Add\(BlockChain#0\.GetTd\((.*)\.ParentHash\(\), \((.*)\.NumberU64\(\) - 1\)\), (.*)\.Difficulty\(\)\)$`).MatchString(t)
 			c.Ob("C02-R1", "pruned side-chain path stores TD = TD(parent) + difficulty as a fresh integer", c.Position(s.Pos()), ok, "WriteBlockWithoutState(block, "+t+")")
+			// the block is parked without execution only while the head is heavier than the TD stored for it: the
+			// comparison operand is that very total, not the parent's (or the head would stay on the lighter chain
+			// when the delivered side chain ends at the first heavier block)
+			fic := c.Facts(ic)
+			local := `BlockChain#0.GetTd(BlockChain#0.CurrentBlock().Hash(), BlockChain#0.CurrentBlock().NumberU64())`
+			okCmp, nst := true, 0
+			for _, st := range fic.At(s) {
+				nst++
+				tt := fic.tr.term(st, s.Common().Args[2], 0)
+				if !st.lits[local+" > "+tt] {
+					okCmp = false
+				}
+			}
+			c.Ob("C02-R1", "pruned side-chain path parks a block only under TD(head) > the total difficulty it stores for the block", c.Position(s.Pos()), okCmp && nst > 0, fmt.Sprintf("%d path states", nst))
 		}
 		wo := c.Fn("core:(*BlockChain).WriteBlockWithoutState")
 		for _, s := range callSites(wo, `^HeaderChain\.WriteTd$`) {
@@ -137,6 +151,20 @@ func runC02(c *Ctx) {
 			}
 		}
 		c.Ob("C02-R2", "call sites of insert/reorg found", "", ncs >= 4, fmt.Sprintf("%d", ncs))
+		// reorg itself makes every block of the new branch canonical, the new head included: it does not leave the head
+		// to its caller (a fault between reorg's return and the caller's own insert would leave the head on a lighter
+		// intermediate block). The insert call lies on every path through an iteration of the loop that also writes
+		// the block's lookup entries, and both take the same element.
+		insS := callSitesOf(rgFn, insFn)
+		lkS := callSites(rgFn, `^core\.WriteTxLookupEntries$`)
+		okIns := len(insS) == 1 && len(lkS) == 1
+		detail := fmt.Sprintf("%d insert sites, %d lookup-entry sites", len(insS), len(lkS))
+		if okIns {
+			a, b := c.termOf(rgFn, insS[0].Common().Args[1]), c.termOf(rgFn, lkS[0].Common().Args[1])
+			okIns = a == b && (instrDominates(insS[0], lkS[0]) || (lkS[0].Block().Dominates(insS[0].Block()) && !reaches(lkS[0].Block(), lkS[0].Block(), insS[0].Block())))
+			detail = "insert(" + a + "), WriteTxLookupEntries(" + b + ")"
+		}
+		c.Ob("C02-R2", "reorg: every block of the new chain (the new head included) is made canonical by reorg itself", c.FnPos(rgFn), okIns, detail)
 		// alternative entry point: `aquachain import` pre-filters the blocks of a file; a block may be skipped as
 		// "already present" only by its own hash (a block of another branch at a known height is not present)
 		if mb := c.FnOpt("subcommands:missingBlocks"); mb == nil {
